@@ -34,13 +34,15 @@ type c19Input struct {
 	Expected []string `json:"expected,omitempty"` // rule names of the derivation, pre-order
 	Mutated  bool     `json:"mutated,omitempty"`
 	Artefact string   `json:"artefact,omitempty"` // artefact comparison that failed
+	Walk     bool     `json:"atn_walk,omitempty"` // tokens come from a walk through the automaton
 }
 
 const c19Rule = "exhaustive over the finite artefact set: serialized ATN of lexer and parser decoded from Go, TypeScript, Java sources and the six .interp files (pairwise equal per grammar), " +
 	"six .tokens files, literal/symbolic/rule name tables of the three packages and the .interp files, token and rule vocabularies declared in OpenFGALexer.g4 / OpenFGAParser.g4, " +
 	"listener methods vs rules, per-rule event skeletons of the three generated parsers. rapid: token-type sentences derived at random from OpenFGAParser.g4 (depth budget 4-9) are " +
 	"parsed by the generated Go parser through a list-backed token source (lexer bypassed): zero syntax errors and the same rules as the derivation (the four rules involved in the " +
-	"relationRecurse ambiguity are compared as a multiset); single-token deletions/insertions/replacements that the .g4 recogniser rejects must yield a syntax error. " +
+	"relationRecurse ambiguity are compared as a multiset); single-token deletions/insertions/replacements that the .g4 recogniser rejects must yield a syntax error; " +
+	"conversely, rapid-drawn random walks through the parser automaton (own deserializer of the serialized ATN) must be sentences of OpenFGAParser.g4 and be accepted by the Go parser. " +
 	"Non-trivial = sentence using >= 8 distinct rules; distinct by token sequence."
 
 func c19Read(rel string) string {
@@ -476,9 +478,69 @@ func TestC19(t *testing.T) {
 			rt.Fatalf("%s", msg)
 		}
 	})
-	if harness {
+	if harness || t.Failed() {
 		t.Fail()
+		return
 	}
+	// (4) the other direction: random walks through the automaton (decoded from the Go package's .interp, which
+	// the artefact differential ties to all other copies) must be sentences of the .g4 grammar
+	interp, err := g4.InterpATN(c19Read(goGen + "OpenFGAParser.interp"))
+	if err != nil {
+		t.Fatalf("cannot read the parser ATN: %v", err)
+	}
+	atn, err := g4.ParseATN(interp)
+	if err != nil {
+		ev.HarnessError("C19", "cannot deserialize the parser ATN: %v", err)
+		t.Fatalf("%v", err)
+	}
+	tokName := func(tt int) string {
+		if tt > 0 && tt < len(p.SymbolicNames) && p.SymbolicNames[tt] != "" {
+			return p.SymbolicNames[tt]
+		}
+		return fmt.Sprintf("<%d>", tt)
+	}
+	t.Run("atn-walks", rapid.MakeCheck(func(rt *rapid.T) {
+		anyTok := func(ex map[string]bool) string {
+			for {
+				s := rapid.SampledFrom(tokNames).Draw(rt, "anyTok")
+				if !ex[s] {
+					return s
+				}
+			}
+		}
+		toks, ok := atn.Walk(rapidG4Chooser{rt}, 0, rapid.IntRange(20, 400).Draw(rt, "budget"), tokName, anyTok)
+		if !ok {
+			rec.Case(fmt.Sprint("abandoned", len(toks)), false, nil, "walk:abandoned")
+			return
+		}
+		in := c19Input{Tokens: toks, Walk: true}
+		if n := len(toks); n > 0 && toks[n-1] == "EOF" {
+			in.Tokens = toks[:n-1]
+		}
+		nt := len(in.Tokens) >= 25
+		var sample any
+		if nt {
+			sample = map[string]any{"atn_walk": strings.Join(in.Tokens, " ")}
+		}
+		rec.Case("walk:"+strings.Join(in.Tokens, " "), nt, sample, "walk:completed")
+		if msg := c19WalkCheck(in); msg != "" {
+			rec.Violation(in, msg)
+			rt.Fatalf("%s", msg)
+		}
+	}))
+}
+
+// c19WalkCheck: a path through the generated automaton must be a sentence of the .g4 grammar and
+// must be accepted by the generated Go parser.
+func c19WalkCheck(in c19Input) string {
+	g := repoGrammar()
+	if !g.Derives("main", append(append([]string{}, in.Tokens...), "EOF")) {
+		return "a path through the generated parser automaton is not a sentence of OpenFGAParser.g4 (grammar edited without regenerating?): " + strings.Join(in.Tokens, " ")
+	}
+	if _, nErr, first, pan := c19Parse(in.Tokens); pan != "" || nErr > 0 {
+		return fmt.Sprintf("a path through the generated automaton is rejected by the generated Go parser code (%s %s): %s", first, pan, strings.Join(in.Tokens, " "))
+	}
+	return ""
 }
 
 func TestReplayC19(t *testing.T) {
@@ -495,7 +557,11 @@ func TestReplayC19(t *testing.T) {
 			}
 			continue
 		}
-		if msg := c19SentenceCheck(in); msg != "" {
+		check := c19SentenceCheck
+		if in.Walk {
+			check = c19WalkCheck
+		}
+		if msg := check(in); msg != "" {
 			rec.Violation(in, msg)
 			t.Errorf("%s: %s", f, msg)
 		}
